@@ -1964,4 +1964,72 @@ theorem engU_init (cfg : Cfg ρ) (mx r : ρ) (hk : (setIoRatio cfg (init cfg mx)
   · rw [hstg, j1]
   · rw [hclk]; simp
 
+/-! ### Draining, up-sampling stage: a large enough flush request drains the engine, and a drained engine delivers nothing more -/
+
+/-- whatever the call sequence (drained or not), the frames delivered stay below the whole input at the engine's rate -/
+theorem engU_upper (cfg : Cfg ρ) (S A0 : Int) (s0 : St ρ) (blocks : List (Nat × Nat)) (drain : List Nat)
+    (h0 : EngU S A0 s0 false 0 0 0) :
+    ∃ b C, EngU S A0 (run cfg { st := s0 } (procOps blocks ++ flushOps drain)).st b (totalIn blocks) C
+      (run cfg { st := s0 } (procOps blocks ++ flushOps drain)).out := by
+  obtain ⟨C1, d1, e1, o1, _, _⟩ := engU_run_procs cfg S A0 blocks { st := s0 } 0 0 0 h0
+  obtain ⟨b2, C2, d2, e2, o2, _, _⟩ := engU_run_flushes cfg S A0 drain (run cfg { st := s0 } (procOps blocks)) false _ C1 _ e1
+  rw [← run_append] at e2 o2
+  refine ⟨b2, C2, ?_⟩
+  have hK : 0 + d1 + d2 = (run cfg { st := s0 } (procOps blocks ++ flushOps drain)).out := by
+    rw [o2, o1]
+  rw [hK, Int.zero_add] at e2
+  exact e2
+
+/-- **Draining.**  After any call sequence, a flush request larger than the whole input at the engine's rate
+    (`o·S > 2·N·2³² + S`) cannot be met: that call ends the stream — and then every further flush call returns nothing. -/
+theorem engU_drains (cfg : Cfg ρ) (S A0 : Int) (s0 : St ρ) (blocks : List (Nat × Nat)) (drain : List Nat) (o o2 : Nat)
+    (h0 : EngU S A0 s0 false 0 0 0) (hA : 0 ≤ A0) (hS : 0 < S) (ho : 2 * (totalIn blocks : Int) * two32 + S < (o : Int) * S) :
+    (run cfg { st := s0 } (procOps blocks ++ flushOps drain ++ [.flush o])).out <
+      (run cfg { st := s0 } (procOps blocks ++ flushOps drain)).out + o ∧
+    (run cfg { st := s0 } (procOps blocks ++ flushOps drain ++ [.flush o] ++ [.flush o2])).out =
+      (run cfg { st := s0 } (procOps blocks ++ flushOps drain ++ [.flush o])).out := by
+  obtain ⟨b, C, e⟩ := engU_upper cfg S A0 s0 blocks drain h0
+  generalize hR' : run cfg { st := s0 } (procOps blocks ++ flushOps drain) = R' at *
+  obtain ⟨C3, e3, le3, _, _, st3⟩ := engU_flush_any cfg S A0 R' b _ C _ o e
+  have hR : run cfg { st := s0 } (procOps blocks ++ flushOps drain ++ [.flush o]) = stepOp cfg R' (.flush o) := by
+    rw [run_append, hR']; rfl
+  rw [hR]
+  generalize hRR : stepOp cfg R' (.flush o) = R at *
+  have hKR : R'.out + (R.out - R'.out) = R.out := by omega
+  rw [hKR] at e3 st3
+  have hpad : (totalIn blocks : Int) + flushPad true - 240 = (totalIn blocks : Int) := by show _ + 240 - 240 = _; omega
+  have hdrained : R.out < R'.out + o := by
+    obtain ⟨_, _, _, _, _, _, hhist, _⟩ := e3
+    by_cases hz : R.out = 0
+    · have : 0 < o := by
+        by_cases ho0 : o = 0
+        · subst ho0; simp at ho; have : (0 : Int) ≤ 2 * (totalIn blocks : Int) * two32 := by unfold two32; omega
+          omega
+        · omega
+      omega
+    · have := hhist (by omega)
+      rw [hpad] at this
+      have h1 : ((R.out : Int) - 1) * S < (o : Int) * S - S := by omega
+      have h2 : ((R.out : Int) - 1) * S < ((o : Int) - 1) * S := by rw [Int.sub_mul (o : Int) 1 S]; omega
+      have := Int.lt_of_mul_lt_mul_right h2 (Int.le_of_lt hS)
+      omega
+  refine ⟨hdrained, ?_⟩
+  have hstuck := st3 hdrained
+  rw [hpad] at hstuck
+  obtain ⟨C4, e4, le4, _, _, _⟩ := engU_flush_any cfg S A0 R true _ C3 _ o2 e3
+  have hR2 : run cfg { st := s0 } (procOps blocks ++ flushOps drain ++ [.flush o] ++ [.flush o2]) = stepOp cfg R (.flush o2) := by
+    rw [run_append, run_append, hR', ← hRR]; rfl
+  rw [hR2]
+  generalize stepOp cfg R (.flush o2) = R2 at *
+  obtain ⟨_, _, _, _, _, _, hhist4, _⟩ := e4
+  by_cases hz : R2.out - R.out = 0
+  · omega
+  · have := hhist4 (by omega)
+    rw [hpad] at this
+    have hc : ((R.out + (R2.out - R.out) : Nat) : Int) = (R2.out : Int) := by omega
+    rw [hc] at this
+    have h2 : ((R2.out : Int) - 1) * S < (R.out : Int) * S := by omega
+    have := Int.lt_of_mul_lt_mul_right h2 (Int.le_of_lt hS)
+    omega
+
 end Soxr.Vr
